@@ -284,6 +284,8 @@ class DiscoveryOracle:
             elif kind == "rx":
                 self.on_rx(idx, T, data[0], data[1], data[2])
             elif kind == "op":
+                if idx + 1 < len(log) and log[idx + 1][4] == "op-skip":
+                    continue  # the engine refused the call (API misuse), nothing happened
                 self.on_op(idx, T, data)
             elif kind == "cb" and data[0] in ("offered", "stopped"):
                 self.on_cb(idx, T, data[0], data[1], data[2], data[3])
